@@ -12,7 +12,7 @@ C10 protocol handlers, second part (see `harness/src/c10_poly.rs`):
   an edge of the solid with a support vertex as an end point, within one degree of orthogonal to `dir`; a face normal must
   be within one degree of `dir`, be a supporting direction whose face contains a support vertex; the returned normal must
   be a unit vector of the normal cone of the feature.
-* `cso_<s1>_<s2>_<local|toward>` — `CSOPoint::from_shapes{,_toward}`: `orig1` is judged as a support point of shape 1 in `dir`,
+* `cso_local`, `cso_toward` (first two arguments: the shape kinds) — `CSOPoint::from_shapes{,_toward}`: `orig1` is judged as a support point of shape 1 in `dir`,
   `orig2` as a support point of the posed shape 2 in `-dir`, `point = orig1 - orig2` (so `point` is a support point of the
   configuration-space obstacle in `dir`).
 * `poly_sincos` — the two constants `sin(π/180)`, `cos(π/180)` used by the model.
@@ -191,13 +191,14 @@ def underflows (s : Shape3) (d dl : V3 Float) (Dl : V3 Rat) : Bool :=
   | 2 => (⟨dl.x, 0, dl.z⟩ : V3 Float).normSq == 0.0 && (Dl.x != 0 || Dl.z != 0)
   | _ => false
 
-def csoHandler (n1 n2 mode : String) : Option Handler :=
-  match parseShape3 n1, parseShape3 n2 with
-  | some p1, some p2 =>
+def csoHandler (mode : String) : Option Handler :=
     if !(mode == "local" || mode == "toward") then none else
     let toward := mode == "toward"
     let parse : P (Shape3 × Shape3 × Iso3 Float × V3 Float) := do
-      let s1 ← p1; let s2 ← p2; let m ← piso3; let d ← pv3; pend; pure (s1, s2, m, d)
+      let n1 ← tok; let n2 ← tok
+      match parseShape3 n1, parseShape3 n2 with
+      | some p1, some p2 => do let s1 ← p1; let s2 ← p2; let m ← piso3; let d ← pv3; pend; pure (s1, s2, m, d)
+      | _, _ => failure
     some {
       model := fun a => run (do
         let (s1, s2, m, d) ← parse
@@ -228,7 +229,6 @@ def csoHandler (n1 n2 mode : String) : Option Handler :=
                    if (P.sub E).normSq ≤ (tol * sz) * (tol * sz) then "pass" else "fail point-is-not-orig1-minus-orig2"
                  | v => if v.startsWith "skip" then v else "fail orig2: " ++ v)
               | v => if v.startsWith "skip" then v else "fail orig1: " ++ v }
-  | _, _ => none
 
 
 /-! ### ConvexPolygon feature ids (2-D) -/
@@ -328,9 +328,8 @@ def polyHandler (fn : String) : Option Handler :=
               | some none => s!"{fid f} none"
               | some (some n) => s!"{fid f} {fv3 n}")) a
       oracle := polyOracleWrap pofeatid polyFeatIdOracle }
-  | _ =>
-    match fn.splitOn "_" with
-    | ["cso", n1, n2, mode] => csoHandler n1 n2 mode
-    | _ => none
+  | "cso_local" => csoHandler "local"
+  | "cso_toward" => csoHandler "toward"
+  | _ => none
 
 end C10
